@@ -1987,7 +1987,65 @@ def rw_unpack_first(func, k):
     return True
 
 
-GUIDED = [rw_extract_temp, rw_flatten_comp_filter, rw_first_of_concat, rw_split_tuple_assign, rw_augcomp_to_loop, rw_len_zero, rw_bool_ifexp, rw_singleton_comp, rw_ndenumerate_value, rw_flat_to_ndenumerate, rw_slice_zero, rw_flip_compare, rw_keyword_to_positional, rw_fstring_to_percent, rw_np_all_any, rw_range_min_guard, rw_membership_container, rw_drop_default_arg, rw_unpack_first, rw_pass_branch, rw_dictcomp_to_loop, rw_none_flag, rw_argcomp_to_loop, rw_hoist_return, rw_get_none, rw_else_after_exit_wrap, rw_else_after_exit_unwrap, rw_comp_to_loop, rw_loop_to_comp, rw_not_compare, rw_demorgan, rw_swap_branches, rw_merge_nested_if, rw_split_and_if, rw_guard_to_swapped_else, rw_swapped_else_to_guard, rw_drop_tail_return, rw_add_tail_return, rw_element_to_index_loop, rw_fuse_loops, rw_late_publication, rw_drop_tail_continue, rw_items_loop, rw_filter_loop, rw_loop_to_update, rw_is_false, rw_hoist_common_tail, rw_sink_common_tail, rw_ifexp_to_if, rw_if_to_ifexp, rw_bool_to_if, rw_kwargs_default, rw_trailing_return, rw_enumerate, rw_return_temp]
+def rw_use_alias(func, k):
+    """a = E ; ... E ...   ->   a = E ; ... a ...      (E a name / attribute / element that is not rebound in between; all occurrences of one statement)"""
+    aliases = []
+    for owner, fld, blk in blocks_of(func):
+        for i, st in enumerate(blk):
+            if isinstance(st, ast.Assign) and len(st.targets) == 1 and isinstance(st.targets[0], ast.Name) and isinstance(st.value, (ast.Attribute, ast.Subscript)) and _is_pure(st.value):
+                aliases.append((blk, i, st))
+    sites = []
+    for blk, i, st in aliases:
+        text = ast.dump(st.value)
+        name = st.targets[0].id
+        if sum(1 for n in ast.walk(func) if isinstance(n, ast.Name) and n.id == name and isinstance(n.ctx, ast.Store)) != 1:
+            continue
+        for st2 in blk[i + 1:]:
+            for sub in ([st2] if not any(isinstance(getattr(st2, f, None), list) and f in _BODY_FIELDS for f in st2._fields) else [x for x in ast.walk(st2) if isinstance(x, ast.stmt) and not any(isinstance(getattr(x, f, None), list) and f in _BODY_FIELDS for f in x._fields)]):
+                occ = [n for n in ast.walk(sub) if isinstance(n, type(st.value)) and ast.dump(n) == text and isinstance(getattr(n, 'ctx', ast.Load()), ast.Load)]
+                if occ:
+                    sites.append((sub, occ, name))
+    if k >= len(sites):
+        return False
+    sub, occ, name = sites[k]
+    for n in occ:
+        replace_node(sub, n, fix(ast.Name(id=name, ctx=ast.Load()), n))
+    return True
+
+
+def rw_ravel_flatten(func, k):
+    """x.ravel()  <->  x.flatten()      (read-only use as an argument)"""
+    sites = [n for n in ast.walk(func) if isinstance(n, ast.Call) and isinstance(n.func, ast.Attribute) and n.func.attr in ('ravel', 'flatten') and not n.args and not n.keywords]
+    if k >= len(sites):
+        return False
+    n = sites[k]
+    n.func.attr = 'flatten' if n.func.attr == 'ravel' else 'ravel'
+    return True
+
+
+def rw_last_appended(func, k):
+    """t = E ; L.append(t) ; X = t     ->     L.append(E) ; X = L[-1]        (t a local that is used nowhere else)"""
+    sites = []
+    for owner, fld, blk in blocks_of(func):
+        for i in range(len(blk) - 2):
+            a, b, c = blk[i], blk[i + 1], blk[i + 2]
+            if isinstance(a, ast.Assign) and len(a.targets) == 1 and isinstance(a.targets[0], ast.Name) and isinstance(b, ast.Expr) and isinstance(b.value, ast.Call) \
+                    and isinstance(b.value.func, ast.Attribute) and b.value.func.attr == 'append' and len(b.value.args) == 1 and isinstance(b.value.args[0], ast.Name) \
+                    and b.value.args[0].id == a.targets[0].id and isinstance(c, ast.Assign) and isinstance(c.value, ast.Name) and c.value.id == a.targets[0].id:
+                t = a.targets[0].id
+                if sum(1 for n in ast.walk(func) if isinstance(n, ast.Name) and n.id == t) == 3:
+                    sites.append((blk, i))
+    if k >= len(sites):
+        return False
+    blk, i = sites[k]
+    a, b, c = blk[i], blk[i + 1], blk[i + 2]
+    b.value.args[0] = a.value
+    c.value = fix(ast.Subscript(value=copy.deepcopy(b.value.func.value), slice=ast.UnaryOp(op=ast.USub(), operand=ast.Constant(value=1)), ctx=ast.Load()), c.value)
+    del blk[i]
+    return True
+
+
+GUIDED = [rw_extract_temp, rw_flatten_comp_filter, rw_first_of_concat, rw_split_tuple_assign, rw_augcomp_to_loop, rw_len_zero, rw_bool_ifexp, rw_singleton_comp, rw_ndenumerate_value, rw_flat_to_ndenumerate, rw_slice_zero, rw_flip_compare, rw_keyword_to_positional, rw_fstring_to_percent, rw_np_all_any, rw_range_min_guard, rw_membership_container, rw_drop_default_arg, rw_unpack_first, rw_use_alias, rw_ravel_flatten, rw_last_appended, rw_pass_branch, rw_dictcomp_to_loop, rw_none_flag, rw_argcomp_to_loop, rw_hoist_return, rw_get_none, rw_else_after_exit_wrap, rw_else_after_exit_unwrap, rw_comp_to_loop, rw_loop_to_comp, rw_not_compare, rw_demorgan, rw_swap_branches, rw_merge_nested_if, rw_split_and_if, rw_guard_to_swapped_else, rw_swapped_else_to_guard, rw_drop_tail_return, rw_add_tail_return, rw_element_to_index_loop, rw_fuse_loops, rw_late_publication, rw_drop_tail_continue, rw_items_loop, rw_filter_loop, rw_loop_to_update, rw_is_false, rw_hoist_common_tail, rw_sink_common_tail, rw_ifexp_to_if, rw_if_to_ifexp, rw_bool_to_if, rw_kwargs_default, rw_trailing_return, rw_enumerate, rw_return_temp]
 
 
 def _clone(node):
